@@ -7,7 +7,28 @@ TB = ("Trusted base: Coq 8.16.1 kernel + vm_compute (no native_compute); no axio
       "harness (generators, world builders, abstraction of concrete inputs into model inputs, error projection). Modelled, not verified: Go stdlib "
       "crypto/x509/asn1/pem/json, protobuf, go-configfs-tsm, go-eventlog, the Go runtime and the OS. ")
 TECH = "Coq theorems over an executable Gallina model (regenerated constants/tables) + extraction-based differential correspondence against /repo with a ground-truth oracle"
+FLOW_NOTE = "The flow model (coq/Model/Verify.v) treats Go's crypto/ecdsa, SHA-256, crypto/x509 parsing and signature checks, encoding/pem, encoding/json, url.QueryUnescape and hex decoding as finite oracle tables inside the `world` (computed by the harness with Go's stdlib on its own bytes; a miss is reported as drift); certificate path building is a simplified Gallina model of crypto/x509 (no name constraints, EKU, path-length limits). "
 props = {
+ "C01": ("Theorems C01_links (an accepted quote implies: attestation key on P-256, its signature over the re-serialised header||body, the PCK leaf key's signature over the re-serialised QE report, and the SHA-256 binding of key||auth data in the QE report data), C01_raw (for raw input the signed message is bytes 0..631, via the C09 theorems), C01_*_injective (the signed encodings determine every header / body / QE report field) and C01_no_unsigned_accept; the verification flow model is run against verify.RawTdxQuote on bit mutants of every signed region, structured forgeries and random mutation under freshly forged PKIs, with the harness recomputing the three links as ground truth.",
+         "6 (C01), Appendix A.2", FLOW_NOTE + "Cryptographic strength (unforgeability, collision resistance) is a hypothesis of C01_no_unsigned_accept, not a claim."),
+ "C02": ("Theorems C02_anchor (accepted implies PCK-role leaf, Platform-CA intermediate, self-signed Root-CA root, each signed by the next, and a validated path into the effective root pool), C02_lookalike (a pool that neither contains nor verifies the leaf / intermediate rejects whatever the names), C02_role, C02_rot_exact / C02_rot_bad_bundle (a root-of-trust configuration trusts exactly the listed certificates; empty / non-PEM / unreadable bundles are errors); run against verify.RawTdxQuote over pairs of PKIs, look-alike substitutions, role-confusion chains and verify.RootOfTrustToOptions configurations.",
+         "6 (C02)", FLOW_NOTE + "A Processor-CA intermediate is rejected by the CN check (stricter than the property needs; modelled as is)."),
+ "C03": ("Theorems C03_signed_values (with collateral on, the TCB Info / QE Identity that drive the verdict are the decodings of the exact-key members whose raw bytes verify under the response's signature with an 'Intel SGX TCB Signing' certificate issued by a self-signed 'Intel SGX Root CA' that chains to the trusted roots, with id/version TDX/3 and TD_QE/2 and non-empty levels, and are the documents the TD body / QE report were judged against) and C03_needs_collateral; run against verify.RawTdxQuote on mutated, re-signed, re-encoded responses and unsigned extra / duplicate members under case and Unicode-fold spellings.",
+         "6 (C03)", FLOW_NOTE + "encoding/json's member matching is an oracle: the model receives the exact-key raw member and its decoding; the claim that unsigned members are inert rests on the code decoding values from that raw member (checked by correspondence, incl. the fix 3212704)."),
+ "C04": ("Theorems C04_accept_iff (the TD-body check succeeds iff FMSPC / PCE-ID / MRSIGNERSEAM / masked SEAM attributes match and the first matching platform level and, when TEE_TCB_SVN[1] > 0, the first applicable level of the first TDX_<version> identity are UpToDate), C04_level_matches, C04_first_match, C04_module_level, C04_no_match_fails and C04_supported_levels (no matching level: verification fails and the reporting API returns an error); run end-to-end through verify.RawTdxQuote and verify.SupportedTcbLevelsFromCollateral on signed TCB Info documents (exhaustive small scope in the thorough tier).",
+         "6 (C04)", FLOW_NOTE + "FMSPC comparison is modelled as ASCII case folding (strings.EqualFold on hex strings)."),
+ "C05": ("Theorems C05_sound (with revocation on, acceptance implies collateral on, a Root CA CRL authenticated by the chain's root and by both issuer-chain roots, a PCK CRL authenticated by the intermediate with the leaf's issuer name, and the leaf / intermediate / TCB-Info signer / QE-Identity signer serials absent) and C05_conflict (revocation without collateral never succeeds); run against verify.RawTdxQuote on generated CRLs (revoked sets, near misses, wrong or look-alike signers, endpoint failures, several distribution points).",
+         "6 (C05)", FLOW_NOTE + "x509.ParseRevocationList and RevocationList.CheckSignatureFrom are oracles."),
+ "C06": ("Theorems C06_sound (acceptance implies every certificate of the PCK chain and of the collateral issuer chains unexpired, validated paths inside their validity periods, TCB Info / QE Identity / PCK CRL / Root CA CRL not past nextUpdate, each at its own entry of the time set), C06_anchored_in_window, C06_expired_leaf_rejected; run against verify.RawTdxQuote on worlds in which exactly one of the 13 artefacts expires, at E-1s / E / E+1s / later with the other four times all before or all after E, zero times and a nil time set.",
+         "6 (C06)", FLOW_NOTE + "time.Time is modelled as Unix seconds (Z); the zero time falls back to the wall clock inside x509 (modelled)."),
+ "C07": ("Theorems C07_accept_iff (the QE-report check succeeds iff mask sizes are right, masked MISCSELECT / ATTRIBUTES equal the identity's values, MRSIGNER and ISVPRODID are equal and the first level with isvsvn <= the report's ISVSVN is UpToDate), C07_no_level, C07_total; run end-to-end through verify.RawTdxQuote on re-signed QE reports against generated signed QE Identity documents.",
+         "6 (C07)", FLOW_NOTE),
+ "C10": ("Theorems C10_parse / C10_serialize / C10_check / C10_verify / C10_verify_raw / C10_extract_chain / C10_validate / C10_policy: for every byte string, every message (nil, nil sub-messages, fields of any length), every world (arbitrary chain bytes, responses, oracle answers) and every option set the modelled entry point returns a value or an error, never the model's Panic outcome (every Go slice expression and index is a checked primitive in the model); all functions are structurally recursive. Run against the nine public entry points on truncations, size-field boundaries, every structural mutation of a message, arbitrary chain contents, endpoint responses and SGX-extension DER, under recover and a watchdog.",
+         "6 (C10)", FLOW_NOTE + "Panics inside the Go standard library / protobuf and the runtime are not modelled; pcs.PckCertificateExtensions is covered by C13."),
+ "C11": ("Theorems C11_parse (every serialisation of a well-formed message - any auth-data length, extra bytes, chain data - parses back to it) and C11_trailing_nul; PARTIAL: the model-level completeness theorem (honest facts imply acceptance) is not proved; acceptance of every honest world at the three levels is established by the correspondence runs on generated honest worlds (implementation and model both accept).",
+         "6 (C11)", FLOW_NOTE + "Partial: completeness of the flow model is validated by differential runs only."),
+ "C12": ("Theorems C12_monotone_crl, C12_monotone_collateral (dropping checks never turns an acceptance into a rejection, same world), C12_no_fetch, C12_urls / C12_ca_named / C12_url_shapes (only the TCB-Info URL naming the PCK FMSPC, the QE-identity URL and - with revocation - the PCK-CRL URL naming the issuing CA and the issuer root's distribution points are requested), C12_history; run against verify.RawTdxQuote on every generated world under all four option combinations with a recording getter, and on histories of verifications through one shared options value versus fresh ones.",
+         "6 (C12)", FLOW_NOTE + "The history theorem is about the model's session (the repaired code writes nothing that a later call reads); the behaviour of the real shared *verify.Options is established by the history runs."),
  "C08": ("Theorems C08_iff (for every well-formed message and every options value, validation succeeds iff the declarative conjunction of configured expectations holds: exact fields, RTMRs, allowed MR_TD, SVN minima component-wise, XFAM/TD_ATTRIBUTES masks bit by bit) and C08_total (no options value or message makes validation crash); the model is run against validate.TdxQuote / RawTdxQuote on every per-field variant, every single mask bit and list shapes, with an independent Go reading of the property as ground truth.",
          "6 (C08), Appendix A.3", "logger side effects and error texts are not modelled; an empty allowed-MR_TD entry acts as a wildcard in the code and in the model (outside the property's 'set of non-empty values')."),
  "C14": ("Theorems C14_converts_iff / C14_fails / C14_total (conversion succeeds exactly when both SVN minima fit 16 bits and every present byte-string expectation incl. minimum_tee_tcb_svn, RTMR and allowed-MR_TD entries has the right length) and C14_meaning (a converted policy gives the verdict the message literally describes and cannot crash validation); run against validate.PolicyToOptions followed by validate.TdxQuote.",
